@@ -196,7 +196,7 @@ CHECKS["C03"] = dict(
           dict(name="real", pkg="./tun", go=GO, test="TestC03R", shards=(4, 16), checks=(40, 600), timeout=(600, 3000)),
           # real clock: a Send left unacknowledged while the gateway forces a reconnect (new or same channel) keeps
           # retransmitting the request it transmitted first, and nothing else leaves in between
-          dict(name="real-reconnect", pkg="./tun", go=GO, test="TestC03RR", shards=(4, 16), checks=(6, 60), timeout=(600, 3000)),
+          dict(name="real-reconnect", pkg="./tun", go=GO, test="TestC03RR", shards=(4, 16), checks=(10, 60), timeout=(600, 3000)),
           # the sender's clauses on the wire of a kernel UDP socket with traffic in both directions: one well-formed frame per
           # datagram, consecutive numbers, repetitions identical - while acknowledgements leave through the same socket
           dict(name="sock", pkg="./sock", go=GO, test="TestC03Sock", shards=(2, 8), checks=(8, 150), timeout=(600, 3000))],
